@@ -8,6 +8,10 @@ from .sv import *
 from .state import State, Obligation
 
 
+class _MapForks(Exception):
+    pass
+
+
 class Builtins:
     # ---------------------------------------------------------------- iteration sources
     def itersrc(self, sv: SV, st: State, node=None) -> VIter:
@@ -124,6 +128,12 @@ class Builtins:
         if name.startswith('spec.'):
             return self.call_spec(name[5:], args, kwargs, st, node)
         if name.startswith('supermeth.'):
+            meth = name[len('supermeth.'):]
+            fi = self.idx.find_method(self.cur_class, meth, after=self.cur_class) if self.cur_class else None
+            recv = st.env.get('self')
+            if fi is not None and isinstance(recv, VVal) and not self.is_abstract(fi):
+                # the method as defined by the nearest repository ancestor (its contract if it has one, else its body)
+                return self.call_func(VFunc(fi.node, {}, fi.module, fi.qualname, self_sv=recv, cls=fi.cls), args, kwargs, st, node)
             # super().__init__() / __init_subclass__(...) of classes outside the repository: no observable effect here
             return [(self.none(), st)]
         h = getattr(self, 'bi_' + name.replace('.', '_'), None)
@@ -282,7 +292,12 @@ class Builtins:
             if isinstance(o, VClass):
                 has = self.idx.find_method(o.name, n.py[1]) is not None
                 return [(VBool(z3.BoolVal(has)), st)] if has else [(VBool(th.has_attr(n.py[1])(self.toVal(o, st))), st)]
-            return [(VBool(th.has_attr(n.py[1])(self.toVal(o, st))), st)]
+            ov = self.toVal(o, st)
+            base = th.has_attr(n.py[1])(ov)
+            store = st.env.get(f'$attrs:{ov}')
+            if isinstance(store, VMapB):      # attributes written by the function body so far exist
+                base = z3.Or(z3.Select(store.has, th.strc(n.py[1])), base)
+            return [(VBool(base), st)]
         return [(VBool(th.fn('hasattr_dyn', th.Val, th.Val, th.B)(self.toVal(o, st), self.toVal(n, st))), st)]
 
     def bi_getattr(self, args, kwargs, st, node):
@@ -442,6 +457,13 @@ class Builtins:
             if x.kind in ('seq', 'str') and target == 'set':
                 k = z3.Const('k!cs', th.Val)
                 return [(VSetB(z3.Lambda([k], th.seq_contains(x.term, k))), st)]
+            if x.kind is None and target in ('list', 'tuple'):
+                # opaque iterable: a NEW container whose contents are a function of the argument, or TypeError (not iterable)
+                it_ok = th.fn('iterable_', th.Val, z3.BoolSort())(x.term)
+                t = th.fn('contents_' + target, th.Val, th.Val)(x.term)
+                st.add(z3.Implies(it_ok, z3.And(th.isc(target)(t), t != th.NoneV, th.vlen(t) >= 0, t != x.term)))
+                return self.outcomes(st, [(it_ok, VVal(t, fresh=True, kind='seq')),
+                                          (z3.Not(it_ok), ('raise', 'TypeError', f'{target}():not-iterable'))])
             return self.iter_to_container(self.itersrc(x, st, node.args[0] if node is not None else None), target, st, node)
         if isinstance(x, VSetB) and target == 'set':
             return [(x, st)]
@@ -622,8 +644,19 @@ class Builtins:
             r = self.call_sv(fn, [it.at(i, s)], {}, s, node)
             oks = [(x, y) for x, y in r if not isinstance(x, Raised)]
             if len(r) != 1 or len(oks) != 1:
-                raise OutOfSubset('map function forks or raises', node)
+                raise _MapForks()
             return oks[0][0]
+        try:
+            at(self.th.fresh('i', self.th.I), State(dict(st.env), list(st.pc)))
+        except _MapForks:
+            # the mapped function may raise or fork: map(f, xs) is the generator (f(x) for x in xs)
+            if node is None or len(node.args) != 2 or node.keywords:
+                raise OutOfSubset('map function forks or raises', node)
+            gen = ast.GeneratorExp(elt=ast.Call(func=node.args[0], args=[ast.Name(id='_mx', ctx=ast.Load())], keywords=[]),
+                                   generators=[ast.comprehension(target=ast.Name(id='_mx', ctx=ast.Store()), iter=node.args[1], ifs=[], is_async=0)])
+            ast.copy_location(gen, node)
+            ast.fix_missing_locations(gen)
+            return self.ev(gen, st)
         return [(VIter(it.n, at, keep=it.keep), st)]
 
     def bi_reversed(self, args, kwargs, st, node):
@@ -1059,7 +1092,11 @@ class Builtins:
             return [(VVal(th.fn('dynattr', th.Val, th.Val, th.Val)(V(0), V(1))), st)]
         if name == 'has_attr':
             n = args[1]
-            return [(VBool(th.has_attr(n.py[1])(V(0))), st)]
+            base = th.has_attr(n.py[1])(V(0))
+            store = st.env.get(f'$attrs:{V(0)}')
+            if isinstance(store, VMapB):      # attributes written by the function body so far exist
+                base = z3.Or(z3.Select(store.has, th.strc(n.py[1])), base)
+            return [(VBool(base), st)]
         if name == 'key_at':
             return [(VVal(th.m_key(V(0), self.toInt(args[1], st))), st)]
         if name == 'idx_of':
@@ -1101,6 +1138,10 @@ class Builtins:
             return self.bi_getattr(args, kwargs, st, node)
         if name == 'hash_of':
             return [(VVal(th.fn('hash_of', th.Val, th.Val)(V(0)), kind='int'), st)]
+        if name == 'closure_of':
+            return [(VVal(th.fn('closure_code', th.Val, th.Val)(V(0)), kind='str'), st)]
+        if name == 'closure_free':
+            return [(VVal(th.fn('closure_free_' + args[1].py[1], th.Val, th.Val)(V(0))), st)]
         if name == 'fnref':
             fi = self.idx.funcs.get(args[0].py[1])
             if fi is None:
